@@ -223,6 +223,61 @@ def mutations(src, toks, limit=400):
     return out
 
 
+def open_block_truncations(src, toks):
+    """Cut a printed (valid) template after a token while blocks are open:
+    -> [(cut source, [(tag text, line) of every start / continuation tag of
+    the blocks that are open at the cut])]."""
+    out = []
+    stack = []          # one list of (text, line) per open block
+    for t in toks:
+        kind, text, a, b, info = t
+        if kind == 'tag' and info:
+            line = src.count('\n', 0, a) + 1
+            if info[0] == 'open':
+                stack.append([(text, line)])
+            elif info[0] == 'cont' and stack:
+                stack[-1].append((text, line))
+            elif info[0] == 'close' and stack:
+                stack.pop()
+        if stack and kind == 'tag':
+            out.append((src[:b], [x for blk in stack for x in blk]))
+    return out
+
+
+def check_unclosed(src, syntax, open_tags):
+    """A source that only lacks end tags is rejected, and the message
+    names (with its line) a tag of a block that is really left open."""
+    from DocumentTemplate import HTML, String
+    from DocumentTemplate.DT_Util import ParseError
+    cls = String if syntax == 'epfs' else HTML
+    try:
+        with cpu_limit(5.0):
+            cls(src).cook()
+    except ParseError as e:
+        v, d = check_message(src, syntax, e)
+        if v.startswith('!'):
+            return v, d
+        m = MSG.match(e.args[0])
+        tag = m.group('tag')
+        if syntax != 'epfs':
+            tag = html.unescape(tag)
+        line = int(m.group('line'))
+        if not any(text.strip() == tag.strip() and ln == line
+                   for text, ln in open_tags):
+            return ('!message:names-a-closed-block',
+                    '%s source %r lacks the end tags of %r, but the message '
+                    'is %r' % (syntax, src, open_tags, e.args[0][:200]))
+        return 'parse-error', ''
+    except (SyntaxError, RecursionError, CpuTimeout):
+        return 'other', ''
+    except Exception as e:
+        return ('!escape:%s:%s' % (type(e).__name__, innermost_frame(e)),
+                '%s source %r raised %r' % (syntax, src, e))
+    return ('!invalid-accepted:missing-end-tag',
+            '%s source %r compiled although %r are not closed' % (
+                syntax, src, open_tags))
+
+
 def invalid_families():
     """(rule, dtml source) - every one violates the tag grammar."""
     f = []
@@ -234,7 +289,16 @@ def invalid_families():
         '<dtml-elif x>', '<dtml-except>', '<dtml-finally>',
         '<dtml-in s><dtml-elif y></dtml-in>',
         '<dtml-if a><dtml-except></dtml-if>',
-        '<dtml-with o><dtml-else></dtml-with>', '<dtml-VAR x>')
+        '<dtml-with o><dtml-else></dtml-with>', '<dtml-VAR x>',
+        # tag names are case-sensitive; these are spelled like the classes
+        '<dtml-If x>a</dtml-if>', '<dtml-In s>a</dtml-in>',
+        '<dtml-With o>a</dtml-with>', '<dtml-Let a=b>a</dtml-let>',
+        '<dtml-Try>a<dtml-except>b</dtml-try>', '<dtml-Unless x>a'
+        '</dtml-unless>', '<dtml-Raise KeyError>m</dtml-raise>',
+        '<dtml-Var x>', '<dtml-Call x>', '<dtml-Return x>',
+        '<dtml-Comment>c</dtml-comment>', '<dtml-Tree x>a</dtml-tree>',
+        '<dtml-Else x>a</dtml-else>', '<dtml-IF x>a</dtml-IF>',
+        '<dtml-if x>a<dtml-Else>b</dtml-if>')
     add('end-without-start', '</dtml-if>', 'text</dtml-in>x',
         '<dtml-var x></dtml-var>', '<dtml-if a></dtml-in></dtml-if>',
         '<dtml-if a></dtml-if></dtml-if>')
@@ -422,6 +486,15 @@ def run_case(case, acc=None):
         elif v != 'ok':
             fails.append(('valid-rejected', '%s source %r (printer output) '
                           'was rejected: %s' % (sx, src, d)))
+        if v == 'ok':
+            for csrc, open_tags in open_block_truncations(src, toks)[:60]:
+                v2, d2 = check_unclosed(csrc, sx, open_tags)
+                if acc is not None:
+                    acc.case(['unclosed', csrc, sx], True,
+                             klass='unclosed:' + (v2 if not v2.startswith(
+                                 '!') else 'violation'))
+                if v2.startswith('!'):
+                    fails.append((v2[1:], '[cut after a tag] ' + d2))
         for mk, msrc in mutations(src, toks):
             if len(msrc) > 4096:
                 continue
@@ -478,22 +551,35 @@ def run_shard(shard):
     acc = Acc(ID, sample_every=499)
     kind = shard['kind']
     if kind == 'families':
-        for rule, src in invalid_families():
-            for sx in ('dtml', 'ssi', 'epfs'):
-                s2 = translate(src, sx)
-                v, d = check_source(s2, sx)
-                case = dict(kind='family', rule=rule, src=s2, syntax=sx)
-                acc.case(case, True, klass='invalid:' + rule,
-                         distinct_by_construction=True)
-                if v.startswith('!'):
-                    acc.fail(v[1:], case, d)
-                elif v == 'ok':
-                    acc.fail('invalid-accepted:%s' % rule, case,
-                             '%s source %r violates the tag grammar (%s) but '
-                             'compiled' % (sx, s2, rule))
-                elif v == 'syntax-error':
-                    acc.fail('invalid-not-parse-error:%s' % rule, case,
-                             '%s source %r raised SyntaxError' % (sx, s2))
+        # the invalid families are compiled in a fresh process, and once
+        # more after every valid family (i.e. every tag) has been compiled
+        # in the same process: acceptance must not depend on that history
+        def run_invalid(after):
+            suffix = ':after-valid-templates' if after else ''
+            for rule, src in invalid_families():
+                for sx in ('dtml', 'ssi', 'epfs'):
+                    s2 = translate(src, sx)
+                    v, d = check_source(s2, sx)
+                    case = dict(kind='family', rule=rule, src=s2, syntax=sx)
+                    if after:
+                        case['after_valid'] = True
+                    acc.case(case, True, klass='invalid%s:%s' % (
+                        '-after-valid' if after else '', rule),
+                        distinct_by_construction=True)
+                    if v.startswith('!'):
+                        acc.fail(v[1:] + suffix, case, d)
+                    elif v == 'ok':
+                        acc.fail('invalid-accepted:%s%s' % (rule, suffix),
+                                 case, '%s source %r violates the tag '
+                                 'grammar (%s) but compiled%s' % (
+                                     sx, s2, rule, ' once other templates '
+                                     'had been compiled in the process'
+                                     if after else ''))
+                    elif v == 'syntax-error':
+                        acc.fail('invalid-not-parse-error:%s' % rule, case,
+                                 '%s source %r raised SyntaxError' % (sx,
+                                                                      s2))
+        run_invalid(False)
         for src in valid_families():
             for sx in ('dtml', 'ssi', 'epfs'):
                 s2 = translate(src, sx)
@@ -506,6 +592,7 @@ def run_shard(shard):
                 elif v != 'ok':
                     acc.fail('valid-rejected', case, '%s source %r is valid '
                              'but was rejected: %s' % (sx, s2, d))
+        run_invalid(True)
         return acc.result()
     if kind == 'nesting':
         # deep nesting / many attributes inside the documented domain
@@ -566,11 +653,18 @@ def replay(case):
             return v[1:], d
         return None if v == 'ok' else ('valid-rejected', str(d))
     if case.get('kind') == 'family':
+        suffix = ''
+        if case.get('after_valid'):
+            suffix = ':after-valid-templates'
+            for src in valid_families():
+                for sx in ('dtml', 'ssi', 'epfs'):
+                    check_source(translate(src, sx), sx)
         v, d = check_source(case['src'], case['syntax'])
         if v.startswith('!'):
-            return v[1:], d
+            return v[1:] + suffix, d
         if v == 'ok':
-            return 'invalid-accepted:%s' % case['rule'], case['src']
+            return 'invalid-accepted:%s%s' % (case['rule'], suffix), \
+                case['src']
         return None
     f = run_case(case)
     return f[0] if f else None
